@@ -49,14 +49,14 @@ pub const EMBED_BOUND: u64 = 1 << 28;
 fn alloc_bound_kad(k: u64, len: usize) -> u64 {
     alloc_bound(len) + KAD_PEER_COST * (2 * k + 1)
 }
-fn alloc_bound(len: usize) -> u64 {
+pub(super) fn alloc_bound(len: usize) -> u64 {
     ALLOC_FACTOR * len as u64 + ALLOC_CONST
 }
 fn recv_alloc_bound(max: u64, len: usize) -> u64 {
     max + 2 * len as u64 + ALLOC_CONST
 }
 
-fn el(out: &mut Vec<u64>, b: &[u8]) {
+pub(super) fn el(out: &mut Vec<u64>, b: &[u8]) {
     out.push(b.len() as u64);
     out.extend(b.iter().map(|x| *x as u64));
 }
@@ -69,24 +69,24 @@ fn eo(out: &mut Vec<u64>, b: Option<&[u8]>) {
         None => out.push(0),
     }
 }
-fn ell(out: &mut Vec<u64>, l: &[Vec<u8>]) {
+pub(super) fn ell(out: &mut Vec<u64>, l: &[Vec<u8>]) {
     out.push(l.len() as u64);
     for b in l {
         el(out, b);
     }
 }
 
-struct Cur<'a> {
-    c: &'a [u64],
-    i: usize,
+pub(super) struct Cur<'a> {
+    pub(super) c: &'a [u64],
+    pub(super) i: usize,
 }
 impl<'a> Cur<'a> {
-    fn n(&mut self) -> Option<u64> {
+    pub(super) fn n(&mut self) -> Option<u64> {
         let x = *self.c.get(self.i)?;
         self.i += 1;
         Some(x)
     }
-    fn bytes(&mut self) -> Option<Vec<u8>> {
+    pub(super) fn bytes(&mut self) -> Option<Vec<u8>> {
         let n = self.n()? as usize;
         if self.i + n > self.c.len() {
             return None;
@@ -95,7 +95,7 @@ impl<'a> Cur<'a> {
         self.i += n;
         v
     }
-    fn list<T>(&mut self, mut f: impl FnMut(&mut Cur<'a>) -> Option<T>) -> Option<Vec<T>> {
+    pub(super) fn list<T>(&mut self, mut f: impl FnMut(&mut Cur<'a>) -> Option<T>) -> Option<Vec<T>> {
         let n = self.n()? as usize;
         if n > self.c.len() {
             return None;
@@ -106,14 +106,14 @@ impl<'a> Cur<'a> {
         }
         Some(v)
     }
-    fn obytes(&mut self) -> Option<Option<Vec<u8>>> {
+    pub(super) fn obytes(&mut self) -> Option<Option<Vec<u8>>> {
         if self.n()? == 0 {
             Some(None)
         } else {
             Some(Some(self.bytes()?))
         }
     }
-    fn done(&self) -> bool {
+    pub(super) fn done(&self) -> bool {
         self.i == self.c.len()
     }
 }
@@ -121,11 +121,11 @@ impl<'a> Cur<'a> {
 // ---------------------------------------------------------------- oracle dictionary
 
 #[derive(Default)]
-struct Orc {
+pub(super) struct Orc {
     e: Vec<(u64, Vec<u8>, Vec<u64>)>,
 }
 impl Orc {
-    fn add(&mut self, kind: u64, key: &[u8], f: impl FnOnce() -> Vec<u64>) {
+    pub(super) fn add(&mut self, kind: u64, key: &[u8], f: impl FnOnce() -> Vec<u64>) {
         if self.e.iter().any(|(k, b, _)| *k == kind && b == key) {
             return;
         }
@@ -135,7 +135,7 @@ impl Orc {
     fn maddr(&mut self, addr: &[u8]) {
         self.add(1, addr, || maddr_answer(addr));
     }
-    fn push(&self, case: &mut Vec<u64>) {
+    pub(super) fn push(&self, case: &mut Vec<u64>) {
         case.push(self.e.len() as u64);
         for (k, key, a) in &self.e {
             case.push(*k);
@@ -177,7 +177,7 @@ fn uvi(mut n: u64) -> Vec<u8> {
 
 // ---------------------------------------------------------------- proto-case <-> case
 
-const ORC_KINDS: [u64; 6] = [1, 5, 6, 7, 8, 11];
+const ORC_KINDS: [u64; 9] = [1, 5, 6, 7, 8, 11, 22, 23, 24];
 
 /// a proto-case padded to a syntactically complete case (empty dictionary)
 pub fn proto_as_case(p: &[u64]) -> Vec<u64> {
@@ -195,16 +195,25 @@ pub fn case_as_proto(c: &[u64]) -> Vec<u64> {
         return c.to_vec();
     }
     let mut cur = Cur { c, i: 1 };
-    let nlists = match kind {
-        1 => {
-            cur.n();
-            1
-        }
-        7 => 3,
-        _ => 1,
+    // the fields in front of the dictionary: n = a number, b = a byte list, l = a list of byte lists
+    let fields: &str = match kind {
+        1 => "nb",
+        7 => "bbb",
+        22 => match c.get(2) {
+            Some(0) => "nnb",
+            _ => "nnbn",
+        },
+        23 => "nnnb",
+        24 => "blb",
+        _ => "b",
     };
-    for _ in 0..nlists {
-        if cur.bytes().is_none() {
+    for f in fields.chars() {
+        let ok = match f {
+            'n' => cur.n().is_some(),
+            'b' => cur.bytes().is_some(),
+            _ => cur.list(|c| c.bytes()).is_some(),
+        };
+        if !ok {
             return c.to_vec();
         }
     }
@@ -494,21 +503,6 @@ fn dump_bs(out: &mut Vec<u64>, m: &bsv::SchemaMessage) {
     out.push(m.pending_bytes as u32 as u64);
 }
 
-/// the identify address rule of `on_outbound_substream`, transcribed (the original is inline in
-/// an async block): parses, not empty, a trailing /p2p must name `expect`
-fn addr_kept(addr: &[u8], expect: &PeerId) -> Option<Vec<u8>> {
-    let address = Multiaddr::try_from(addr.to_vec()).ok()?;
-    if address.is_empty() {
-        return None;
-    }
-    if let Some(Protocol::P2p(peer_id)) = address.iter().last() {
-        if peer_id != (*expect).into() {
-            return None;
-        }
-    }
-    Some(address.to_vec())
-}
-
 fn dump_prefix(v: u64, c: u64, t: u64, l: u8) -> Vec<u64> {
     let mut o = vec![1, v];
     el(&mut o, &uvi(c));
@@ -554,9 +548,9 @@ fn yamux_syn_credit_overflow(mut b: &[u8]) -> bool {
 }
 
 /// futures-io carrier for the yamux connection: the bytes, then end of stream; writes are dropped
-struct FCarrier {
-    data: Vec<u8>,
-    pos: usize,
+pub(super) struct FCarrier {
+    pub(super) data: Vec<u8>,
+    pub(super) pos: usize,
 }
 impl futures::io::AsyncRead for FCarrier {
     fn poll_read(mut self: Pin<&mut Self>, _cx: &mut Context<'_>, buf: &mut [u8]) -> Poll<std::io::Result<usize>> {
@@ -595,7 +589,7 @@ fn yamux_feed(b: &[u8]) -> usize {
     streams.len()
 }
 
-fn hdr(peak: u64, bound: u64, cap: u64, body: Vec<u64>) -> Vec<u64> {
+pub(super) fn hdr(peak: u64, bound: u64, cap: u64, body: Vec<u64>) -> Vec<u64> {
     // C19_SHOW_PEAK=1 (debugging only): print the measured peak even when it is within the bound
     let show = std::env::var_os("C19_SHOW_PEAK").is_some();
     let mut t = vec![1, if peak <= bound && !show { bound } else { peak }, cap];
@@ -1028,6 +1022,9 @@ fn run_inner(p: &[u64]) -> Option<(Vec<u64>, Vec<u64>)> {
             Some((case, vec![1, opaque(peak, YAMUX_BOUND), 0]))
         }
         20 => run_rt(&mut cur).map(|t| (case, t)),
+        22 => super::net::noise(&mut cur, &mut case).map(|t| (case, t)),
+        23 => super::net::websocket(&mut cur, &mut case).map(|t| (case, t)),
+        24 => super::net::mdns(&mut cur, &mut case).map(|t| (case, t)),
         _ => None,
     }
 }
@@ -1285,6 +1282,25 @@ fn run_rt(cur: &mut Cur) -> Option<Vec<u64>> {
             ell(&mut body, &frames);
             body.push(st);
             Some(hdr(peak, recv_alloc_bound(max, s.len()), cap, body))
+        }
+        27 => {
+            let cw = cur.n()? != 0;
+            let chunks = cur.list(|c| c.bytes())?;
+            let (wire_len, out, st, peak) = super::net::ws_roundtrip(cw, &chunks)?;
+            let mut body = Vec::new();
+            el(&mut body, &out);
+            body.push(st);
+            Some(hdr(peak, super::net::ws_bound(wire_len), 0, body))
+        }
+        28 => {
+            let ua = String::from_utf8(cur.bytes()?).ok()?;
+            let ub = String::from_utf8(cur.bytes()?).ok()?;
+            let listen = cur.list(|c| c.bytes())?;
+            let listen: Option<Vec<Multiaddr>> = listen.into_iter().map(|a| Multiaddr::try_from(a).ok()).collect();
+            let (_reply, l, peak) = super::net::mdns_roundtrip(&ua, &ub, listen?, 7)?;
+            let mut body = Vec::new();
+            ell(&mut body, &l);
+            Some(hdr(peak, alloc_bound(4096) + (1 << 16), 0, body))
         }
         _ => None,
     }
